@@ -149,6 +149,18 @@ type Node07 struct {
 	Dyn    string `json:"dyn,omitempty"`    // dynamic type emitted when Out is an interface ("nil" allowed)
 	Branch string `json:"branch,omitempty"` // "" or the condition's input type: the connection to the next node is a branch
 	PreH   string `json:"preh,omitempty"`   // "" or the pre-handler's value type
+	// Side (pass nodes whose incoming connection is a branch): a second predecessor.  The branch gets the
+	// lambda s<i> (In -> Out, Out an interface type) as its other target and s<i> -> x<i> is an edge; when
+	// Pick is set the branch chooses s<i>, so the pass-through node receives a dynamic value over an
+	// interface-typed edge.
+	Side *Side07 `json:"side,omitempty"`
+}
+
+type Side07 struct {
+	In   string `json:"in"`
+	Out  string `json:"out"`
+	Dyn  string `json:"dyn"`
+	Pick bool   `json:"pick"`
 }
 
 type CaseC07 struct {
@@ -198,8 +210,10 @@ func genC07(t *rapid.T) CaseC07 {
 			return from
 		}
 	}
+	curBefore := make([]string, 0, k)
 	for i := 0; i < k; i++ {
 		n := Node07{}
+		curBefore = append(curBefore, cur)
 		if rapid.IntRange(0, 3).Draw(t, "pass") == 0 {
 			n.Kind = "pass"
 		} else {
@@ -237,6 +251,17 @@ func genC07(t *rapid.T) CaseC07 {
 		c.StartB = compat(c.InT)
 	}
 	nConn := k + 1
+	for i := range c.Nodes {
+		incoming := c.StartB
+		if i > 0 {
+			incoming = c.Nodes[i-1].Branch
+		}
+		if c.Nodes[i].Kind == "pass" && incoming != "" && rapid.IntRange(0, 1).Draw(t, "side") == 0 {
+			ifaces := []string{"any", "any", "Stringer", "Iface"}
+			c.Nodes[i].Side = &Side07{In: compat(curBefore[i]), Out: ifaces[rapid.IntRange(0, 3).Draw(t, "sideOut")], Dyn: dynFor("sideDyn"), Pick: rapid.IntRange(0, 3).Draw(t, "sidePick") > 0}
+			nConn++
+		}
+	}
 	for i := 0; i < nConn; i++ {
 		c.Order = append(c.Order, rapid.IntRange(0, 1000).Draw(t, "ord"))
 	}
@@ -265,13 +290,27 @@ func build07[I, O any](c CaseC07) (run07, error) {
 			return nil, err
 		}
 	}
+	for i, n := range c.Nodes {
+		if n.Side != nil {
+			sk := fmt.Sprintf("s%d", i)
+			if err := g.AddLambdaNode(sk, c07Lambdas[n.Side.In+">"+n.Side.Out](sk, n.Side.Dyn)); err != nil {
+				return nil, err
+			}
+		}
+	}
 	// sink for the never-taken second branch target
 	if err := g.AddLambdaNode("sink", c07Lambdas["any>string"]("sink", "")); err != nil {
 		return nil, err
 	}
 	// connections: index 0 = START->x0, i = x(i-1)->x(i), k = x(k-1)->END, added in generated order
 	k := len(c.Nodes)
-	idx := make([]int, k+1)
+	var sides []int // connection k+1+j is the edge s<sides[j]> -> x<sides[j]>
+	for i, n := range c.Nodes {
+		if n.Side != nil {
+			sides = append(sides, i)
+		}
+	}
+	idx := make([]int, k+1+len(sides))
 	for i := range idx {
 		idx[i] = i
 	}
@@ -282,6 +321,13 @@ func build07[I, O any](c CaseC07) (run07, error) {
 		}
 	}
 	for _, ci := range idx {
+		if ci > k {
+			i := sides[ci-k-1]
+			if err := g.AddEdge(fmt.Sprintf("s%d", i), key(i)); err != nil {
+				return nil, err
+			}
+			continue
+		}
 		from, to := compose.START, compose.END
 		if ci > 0 {
 			from = key(ci - 1)
@@ -296,7 +342,14 @@ func build07[I, O any](c CaseC07) (run07, error) {
 			bt = c.Nodes[ci-1].Branch
 		}
 		var err error
-		if bt != "" {
+		if bt != "" && ci < k && c.Nodes[ci].Side != nil {
+			sk := fmt.Sprintf("s%d", ci)
+			pick := to
+			if c.Nodes[ci].Side.Pick {
+				pick = sk
+			}
+			err = g.AddBranch(from, c07Branches[bt](map[string]bool{to: true, sk: true}, pick))
+		} else if bt != "" {
 			err = g.AddBranch(from, c07Branches[bt](map[string]bool{to: true, "sink": true}, to))
 		} else {
 			err = g.AddEdge(from, to)
@@ -413,6 +466,7 @@ func checkC07(c CaseC07) (*vkit.Failure, vkit.Meta) {
 		hops := 0
 		inferred := false
 		mayEdgeOK, mayEdgeBad := false, false
+		sideFed, sideAmbiguous := false, false
 		visit := func(p pos) {
 			if firstBad != nil {
 				return
@@ -459,6 +513,58 @@ func checkC07(c CaseC07) (*vkit.Failure, vkit.Meta) {
 				if hops >= 1 {
 					inferred = true
 				}
+				if n.Side != nil && !n.Side.Pick && firstBad == nil {
+					// the pass-through node may have taken the (interface) type of its other predecessor (order
+					// dependent): downstream of it the declared type may be that interface
+					if !assignable(val, n.Side.Out) {
+						sideAmbiguous = true
+					}
+					declared = n.Side.Out
+				}
+				if n.Side != nil && n.Side.Pick && c07RT[n.Side.In] != nil && c07RT[n.Side.Out] != nil {
+					// the branch chose the side lambda; its dynamic value then crosses an interface-typed edge into
+					// the pass-through node, whose own type was inferred from whichever neighbour was connected first
+					before := declared
+					visit(pos{fmt.Sprintf("input of s%d", i), declared, n.Side.In})
+					if firstBad == nil {
+						sideFed = true
+						declared = n.Side.Out
+						val = c07Value(n.Side.Dyn)
+						if n.Side.Dyn != "nil" && !assignable(val, n.Side.Out) {
+							val = nil
+						}
+						if val == nil {
+							nilFlow = true
+						}
+						cands := []string{before}
+						incoming := c.StartB
+						if i > 0 {
+							incoming = c.Nodes[i-1].Branch
+						}
+						cands = append(cands, incoming)
+						for j := i + 1; ; j++ {
+							if j >= len(c.Nodes) {
+								cands = append(cands, c.OutT)
+								break
+							}
+							if c.Nodes[j].Kind == "lambda" {
+								cands = append(cands, c.Nodes[j].In)
+								break
+							}
+							if c.Nodes[j].Branch != "" {
+								cands = append(cands, c.Nodes[j].Branch)
+							}
+						}
+						if n.Branch != "" {
+							cands = append(cands, n.Branch)
+						}
+						for _, cd := range cands {
+							if cd != "" && !assignable(val, cd) {
+								sideAmbiguous = true // whether the pass-through node carries this type depends on the Add* order
+							}
+						}
+					}
+				}
 			}
 			if n.Branch != "" {
 				visit(pos{fmt.Sprintf("branch condition after x%d", i), declared, n.Branch})
@@ -495,6 +601,16 @@ func checkC07(c CaseC07) (*vkit.Failure, vkit.Meta) {
 			}
 			if rerr != nil && firstBad == nil {
 				return &vkit.Failure{Kind: "nil-interface-value-rejected", Sig: "nil-interface-value-rejected", Msg: fmt.Sprintf("a nil interface value flows only through interface-typed positions, yet the run failed: %s", shortErr(rerr))}
+			}
+			return nil
+		}
+		if sideFed {
+			m.Labels = append(m.Labels, "passthrough-fed-over-interface-edge")
+		}
+		if firstBad == nil && sideAmbiguous {
+			// the value fits everything downstream but not every type the pass-through node may have been given
+			if rerr != nil && strings.Contains(rerr.Error(), "panic error") {
+				return &vkit.Failure{Kind: "runtime-check-is-a-panic", Sig: "runtime-check-is-a-panic", Msg: fmt.Sprintf("a %T value entered an inferred pass-through node over an interface-typed edge and the run panicked: %s", val, shortErr(rerr))}
 			}
 			return nil
 		}
